@@ -123,7 +123,7 @@ def run(tier, seed):
             v.sample({"direction": "spec->code", "declaration": univ[c["d"] - 1]["prog"], "raw": c["raw"], "pre": c["pre"],
                       "post": c["post"], "spec_plain": c["u1"]["st"], "spec_padded": c["u2"]["st"], "open_ended": c["u1"]["open"]})
         v.cov["executions_differing_from_spec"] = v.cov.get("executions_differing_from_spec", 0) + len(mism)
-        todo = mism[:400]
+        todo = common.spread2(mism, lambda m: m["d"], lambda m: json.dumps(m["gen"]), 600)
         if todo:
             judged = pp.judge_cases(v, univ, [], gens, OWNED, "Trace_Packet on %d recorded pairs differing from the specification" % len(todo),
                                     c01=False, extra_records=[(m["rec"], {"d": m["d"], "gen": m["gen"], "extra": m["extra"]}) for m in todo])
